@@ -11,6 +11,7 @@ def eventOf (tok : String) : Option Event :=
   | ["rcpt", a] => (fromHex a).map Event.rcpt
   | ["rcptRefused"] => some .rcptRefused
   | ["reset"] => some .reset
+  | ["dataRefused"] => some .dataRefused
   | ["dataStarted"] => some .dataStarted
   | ["dataFailed"] => some .dataFailed
   | ["tls"] => some .tlsStarted
